@@ -102,9 +102,11 @@ class ProgressBarHandler:
             if exc_type is not None:
                 self.worker_comms.signal_kill_signal_received()
 
-            # Signal shutdown and close the handling thread
-            if not self.worker_comms.exception_thrown():
-                self.worker_comms.signal_progress_bar_shutdown()
+            # Signal shutdown and close the handling thread. We also do this when an exception has been thrown: when we
+            # get here with the thread still alive, the exception wasn't handled by the map call (e.g., a worker that's
+            # kept alive died right after the call was done), so nobody is going to provide the traceback the thread
+            # would otherwise wait for
+            self.worker_comms.signal_progress_bar_shutdown()
             self.thread.join()
 
     def _progress_bar_handler(self) -> None:
